@@ -358,6 +358,9 @@ func stdinVariant(p ProcSpec, plan []int, eofWithData bool) (ProcSpec, bool) {
 		return p, false
 	}
 	last := f.args[n-1]
+	if last == simos.DevStdin {
+		return p, false
+	}
 	q.Argv = append([]string(nil), p.Argv[:len(p.Argv)-1]...)
 	q.Stdin = &StdinSpec{From: "file:" + last, Plan: plan, EOFWithData: eofWithData}
 	return q, true
